@@ -654,6 +654,10 @@ def cmd_check(pid, tier):
                 notes = []
                 # a run may be split into rounds (fresh processes with other seeds: long-lived -race processes slow down)
                 expanded = [dict(run, salt=rd) for run in c["runs"] for rd in range((run.get("rounds") or {}).get(tier, 1))]
+                # development aid (never used by a registered command): restrict a check to the runs whose test name matches
+                if os.environ.get("VERIF_ONLY"):
+                    expanded = [run for run in expanded if re.search(os.environ["VERIF_ONLY"], run["test"])]
+                    notes.append("restricted to runs matching %s" % os.environ["VERIF_ONLY"])
                 for run in expanded:
                     if tier not in run.get("tiers", ("quick", "thorough")):
                         continue
